@@ -219,6 +219,8 @@ def run_peak(c):
     classes = ["peak_" + sc["kind"], f"power{c['power']}", "layout_" + sc["layout"]]
     if sc.get("history"):
         classes.append("object_modified_in_place_after_earlier_queries")
+    if sc.get("memory"):
+        classes.append("stored_arrays_" + sc["memory"] + "_layout")
     if sc["kind"] == "2d":
         ds1 = call(spec.as_frequency_spectrum(), cc, "peak", power=c["power"])
         for k in ("friction_velocity", "u10", "direction"):
